@@ -29,6 +29,11 @@ pub struct Key {
     /// which dead classes exist: filled, cancelled, rejected
     dead: [bool; 3],
     bad: bool,
+    /// tie mode only: per resting order (priority order, bids then asks) how long ago it was
+    /// queued, clipped: 0 = at the current clock value, .., cap = "at least cap ticks ago".
+    /// Finer than the behaviour of a correct book needs (which depends on queue order only) so
+    /// that states whose hidden queue stamps differ relative to the clock are NOT merged.
+    ages: Vec<u8>,
 }
 
 #[derive(Clone, Debug)]
@@ -77,6 +82,9 @@ pub struct Absx {
     pub with_toggles: bool,
     pub with_create: bool,
     pub with_redundant: bool,
+    /// clock advance before each action is a choice in {0,+1} (C05) instead of always +1
+    pub ties: bool,
+    pub tie_transitions: Arc<AtomicU64>,
     pub transitions: Arc<AtomicU64>,
     pub cut: Arc<AtomicU64>,
     pub fails: Arc<Mutex<BTreeMap<String, Witness>>>,
@@ -85,15 +93,32 @@ pub struct Absx {
     pub crossing_modifies: Arc<AtomicU64>,
 }
 
-fn key_of(m: &RefModel, bad: bool) -> Key {
+fn key_of(m: &RefModel, bad: bool, ties: Option<usize>, with_dead: bool) -> Key {
     let (trading, bids, asks) = m.live_key();
+    let ages = match ties {
+        None => vec![],
+        Some(cap) => {
+            let mut v = Vec::new();
+            for bid in [true, false] {
+                for r in m.queue(bid) {
+                    v.push((m.t - r.qtime).min(cap as u64) as u8);
+                }
+            }
+            v
+        }
+    };
     let unplaced = m.orders.iter().find(|o| o.status == NEW).map(|o| (o.bid, o.price, o.vol));
-    let dead = [
-        m.orders.iter().any(|o| o.status == FILLED),
-        m.orders.iter().any(|o| o.status == CANCELLED),
-        m.orders.iter().any(|o| o.status == REJECTED),
-    ];
-    Key { trading, bids, asks, unplaced, dead, bad }
+    // dead classes only matter when redundant requests against them are among the actions
+    let dead = if with_dead {
+        [
+            m.orders.iter().any(|o| o.status == FILLED),
+            m.orders.iter().any(|o| o.status == CANCELLED),
+            m.orders.iter().any(|o| o.status == REJECTED),
+        ]
+    } else {
+        [false; 3]
+    };
+    Key { trading, bids, asks, unplaced, dead, bad, ages }
 }
 
 fn dead_rep(m: &RefModel, class: usize) -> Option<usize> {
@@ -102,7 +127,15 @@ fn dead_rep(m: &RefModel, class: usize) -> Option<usize> {
 }
 
 impl Absx {
-    fn concretise(&self, m: &RefModel, a: &AbsAct) -> Option<Step> {
+    fn tie_cap(&self) -> Option<usize> {
+        if self.ties {
+            Some(self.max_rest)
+        } else {
+            None
+        }
+    }
+
+    fn concretise(&self, m: &RefModel, dt: u8, a: &AbsAct) -> Option<Step> {
         let op = match a {
             AbsAct::Limit { bid, price, vol } => Op::Limit { bid: *bid, price: *price, vol: *vol },
             AbsAct::Market { bid, vol } => Op::Market { bid: *bid, vol: *vol },
@@ -116,23 +149,44 @@ impl Absx {
             AbsAct::Enable => Op::Enable,
             AbsAct::Disable => Op::Disable,
         };
-        Some(Step { dt: 1, op })
+        Some(Step { dt: dt as u64, op })
     }
 }
 
 impl Model for Absx {
     type State = AbsState;
-    type Action = AbsAct;
+    type Action = (u8, AbsAct);
 
     fn init_states(&self) -> Vec<AbsState> {
         let m = RefModel::new(self.profile.start_time, self.profile.tick, self.profile.start_trading);
-        vec![AbsState { key: key_of(&m, false), hist: vec![], model: m }]
+        vec![AbsState { key: key_of(&m, false, self.tie_cap(), self.with_redundant), hist: vec![], model: m }]
     }
 
-    fn actions(&self, s: &AbsState, out: &mut Vec<AbsAct>) {
+    fn actions(&self, s: &AbsState, acts: &mut Vec<(u8, AbsAct)>) {
         if s.key.bad {
             return;
         }
+        let mut out: Vec<AbsAct> = Vec::new();
+        self.abs_actions(s, &mut out);
+        for a in out {
+            if self.ties {
+                acts.push((0, a.clone()));
+            }
+            acts.push((1, a));
+        }
+    }
+
+    fn next_state(&self, last: &AbsState, a: (u8, AbsAct)) -> Option<AbsState> {
+        self.step_state(last, a.0, a.1)
+    }
+
+    fn properties(&self) -> Vec<Property<Self>> {
+        self.props()
+    }
+}
+
+impl Absx {
+    fn abs_actions(&self, s: &AbsState, out: &mut Vec<AbsAct>) {
         let p = &self.profile;
         for bid in [true, false] {
             for &price in &p.prices {
@@ -188,8 +242,8 @@ impl Model for Absx {
         }
     }
 
-    fn next_state(&self, last: &AbsState, a: AbsAct) -> Option<AbsState> {
-        let step = self.concretise(&last.model, &a)?;
+    fn step_state(&self, last: &AbsState, dt: u8, a: AbsAct) -> Option<AbsState> {
+        let step = self.concretise(&last.model, dt, &a)?;
         let mut m2 = last.model.clone();
         let m_ret = apply_model(&mut m2, &step);
         // caps: a successor outside the boundary is not executed or judged (counted as cut)
@@ -201,6 +255,9 @@ impl Model for Absx {
             return None;
         }
         self.transitions.fetch_add(1, Ordering::Relaxed);
+        if m2.has_tie() {
+            self.tie_transitions.fetch_add(1, Ordering::Relaxed);
+        }
         match &step.op {
             Op::Cancel { id, .. } => {
                 let o = &last.model.orders[*id];
@@ -257,10 +314,10 @@ impl Model for Absx {
                 }
             }
         }
-        Some(AbsState { key: key_of(&m2, bad), hist, model: m2 })
+        Some(AbsState { key: key_of(&m2, bad, self.tie_cap(), self.with_redundant), hist, model: m2 })
     }
 
-    fn properties(&self) -> Vec<Property<Self>> {
+    fn props(&self) -> Vec<Property<Self>> {
         vec![
             Property::always("implementation conforms to the reference on every transition", |_, s: &AbsState| !s.key.bad),
             Property::sometimes("queue of maximal length at one price", |m: &Absx, s: &AbsState| {
@@ -294,6 +351,8 @@ pub fn closure(m: Absx, dfs: bool) -> ClosureResult {
     let partial = m.partial_head_cancels.clone();
     let crossing = m.crossing_modifies.clone();
     let with_modify = m.with_modify;
+    let ties = m.ties;
+    let tie_tr = m.tie_transitions.clone();
     let b = m.checker().threads(util::n_threads());
     let (unique, generated, depth, found): (usize, usize, usize, Vec<&'static str>) = if dfs {
         let c = b.spawn_dfs().join();
@@ -308,11 +367,15 @@ pub fn closure(m: Absx, dfs: bool) -> ClosureResult {
             missing.push(g.to_string());
         }
     }
-    if partial.load(Ordering::Relaxed) == 0 {
-        missing.push("a partially filled queue head was cancelled".into());
-    }
+    // (cancels of partially filled heads are counted but not required: whether the
+    // representative history of a key contains a partial fill is path-dependent, the key
+    // deliberately forgets start volumes)
+    let _ = partial.load(Ordering::Relaxed);
     if with_modify && crossing.load(Ordering::Relaxed) == 0 {
         missing.push("a modify that trades".into());
+    }
+    if ties && tie_tr.load(Ordering::Relaxed) == 0 {
+        missing.push("a state holding two orders queued at one price with one timestamp".into());
     }
     let f = fails.lock().unwrap().clone();
     ClosureResult {
@@ -335,11 +398,15 @@ pub struct ClosureCfg {
     pub toggles: bool,
     pub create: bool,
     pub redundant: bool,
+    pub ties: bool,
+    /// number of grid prices (2 or 3)
+    pub prices: usize,
 }
 
 /// Run the closure for a property's monitor set and fold the result into its outcome.
 pub fn run_closure(out: &mut Outcome, monitors: &Monitors, c: &ClosureCfg, also_dfs: bool) {
     let mut profile = Profile::core("closure", 1, 10);
+    profile.prices.truncate(c.prices.max(2));
     profile.limit_vols = (1..=c.max_vol.min(2)).collect();
     profile.market_vols = vec![1, c.max_vol + 1];
     let mk = || Absx {
@@ -352,6 +419,8 @@ pub fn run_closure(out: &mut Outcome, monitors: &Monitors, c: &ClosureCfg, also_
         with_toggles: c.toggles,
         with_create: c.create,
         with_redundant: c.redundant,
+        ties: c.ties,
+        tie_transitions: Arc::new(AtomicU64::new(0)),
         transitions: Arc::new(AtomicU64::new(0)),
         cut: Arc::new(AtomicU64::new(0)),
         fails: Arc::new(Mutex::new(BTreeMap::new())),
@@ -364,8 +433,8 @@ pub fn run_closure(out: &mut Outcome, monitors: &Monitors, c: &ClosureCfg, also_
         c.label, r.unique, r.transitions, r.cut, r.max_depth, r.fails.len(), r.wall_s
     );
     let mut rec = json!({
-        "engine": "absx (stateright BFS closure)", "label": c.label, "caps": {"max_resting_per_side": c.max_rest, "max_volume": c.max_vol, "max_unplaced": 1},
-        "actions": {"modify": c.modify, "toggles": c.toggles, "create_place": c.create, "redundant_requests_on_dead_classes": c.redundant},
+        "engine": "absx (stateright BFS closure)", "label": c.label, "caps": {"max_resting_per_side": c.max_rest, "max_volume": c.max_vol, "max_unplaced": 1, "grid_prices": c.prices.max(2)},
+        "actions": {"modify": c.modify, "toggles": c.toggles, "create_place": c.create, "redundant_requests_on_dead_classes": c.redundant, "clock_advance": if c.ties { "{0,+1} before every action; queue ages (clipped) are part of the key" } else { "+1 before every action" }},
         "unique_abstract_states": r.unique, "states_generated": r.generated, "transitions_executed_on_real_code": r.transitions,
         "cut_by_caps": r.cut, "max_depth": r.max_depth, "wall_s": (r.wall_s * 100.0).round() / 100.0,
         "violating_signatures": r.fails.keys().collect::<Vec<_>>(),
